@@ -1,9 +1,13 @@
 import TongoModel.Boc
 /-! The header and size arithmetic of `bagOfCells.serializeBoc` (boc/boc.go) for cells that are already in a valid
-serialisation order. The ORDER chosen by importCell/reorderCells/revisit is deliberately not modelled (any
-topological order of the distinct cells is a correct bag of cells); it is checked per input by the verified reader.
+serialisation order. The ORDER chosen by importCell/reorderCells/revisit is modelled in `TongoModel/BocOrder.lean`
+(`Order.orderWith`, proved valid by `C01.order_valid`) and composed with this file in `Order.serializeBocModel`.
 `serializeOrdered` is what serializeBoc writes once the order is fixed: it is an instance of the reference writer
-`emitBoc`, so `parse_emit` applies to it. -/
+`emitBoc`, so `parse_emit` applies to it. Not modelled here: the `flags` argument of serializeBoc (written as two header
+bits: the `Cell.ToBoc*` methods always pass 0, `boc.SerializeBoc` passes the caller's value; the reader ignores the
+field) and the capacity of the
+output BitString `NewBitString((1023+224)·cells)` (a `WriteBytes` beyond it would return ErrBitStingOverflow; the
+capacity exceeds the largest possible cell, index entry and header share — see props/C01.py `assumptions`). -/
 namespace Tongo.Boc.Writer
 open Tongo Tongo.Boc
 
